@@ -106,6 +106,8 @@ def gen_cases(ctx):
             plist = [1, 2, 3, r.randint(4, 40), r.randint(40, 128), 257]
         for j, p in enumerate(plist):
             n = 4 * p + 50 if p <= 64 or ctx.thorough else 2 * p + 50
+            if ind == "MAD" and p > 256:
+                n = p + 60   # the exact instance of MAD costs O(period) big-rational operations per step
             style = r.choice(["signed", "walk", "mixed", "ties", "uniform", "periodic", "tiny", "huge", "flatafter", "zeros", "segments", "segments"])
             xs = scalar_stream(r, n, style, p=p)
             # plateaus and occasional huge/small magnitudes
